@@ -62,6 +62,8 @@ def setup():
     from typhon.files.handlers.common import FileHandler, FileInfo
     _T.update(fsmod=fsmod, FileSet=FileSet, FileHandler=FileHandler,
               FileInfo=FileInfo)
+    from sim.seams import typhon_state
+    _T["state"] = typhon_state()
 
 
 class InjectedReadError(OSError):
@@ -376,6 +378,7 @@ def _ret(opts, info_plain, value):
 
 # ------------------------------------------------------------------- the run
 def run_one(tape, only=None):
+    _T["state"].restore()      # each run models a fresh interpreter
     global ST
     res = new_result()
     w = gen_workload(tape)
